@@ -201,19 +201,12 @@ func ruleB1(p *Prog) *RuleResult {
 					res.bad(construct, pos, fmt.Sprintf("error result of %s is never read", cn))
 					continue
 				}
-				// every return on a non-nil edge must carry a non-nil error (when the function can report one)
+				// every return reachable from a non-nil edge must carry a non-nil error (when the function can report one)
 				bad := ""
 				if ownErrIdx >= 0 {
 					for _, nb := range u.nonNilBlk {
-						for _, db := range dominatedBlocks(nb) {
-							if len(db.Instrs) == 0 {
-								continue
-							}
-							if ret, ok := db.Instrs[len(db.Instrs)-1].(*ssa.Return); ok {
-								if isNilConst(ret.Results[ownErrIdx]) {
-									bad = fmt.Sprintf("after %s failed, the return at %s reports a nil error", cn, p.ipos(ret))
-								}
-							}
+						if r := p.nilReturnReachable(f, nb, ins.Block(), errVal, ownErrIdx); r != nil {
+							bad = fmt.Sprintf("after %s failed, the return at %s can report a nil error", cn, p.ipos(r))
 						}
 					}
 				}
@@ -424,4 +417,97 @@ func derivesFromCall(v ssa.Value, call *ssa.Call, idx, nres int, seen map[ssa.Va
 		}
 	}
 	return false
+}
+
+// nilReturnReachable: starting on the edge where errVal is known to be non-nil (block from), is a
+// Return reachable (without executing the call's block again) whose error result is known to be
+// nil on that path? Known nil: the constant nil, another error value that was tested nil on every
+// path to the return, or a phi whose incoming value on a reachable edge is known nil.
+func (p *Prog) nilReturnReachable(f *ssa.Function, from, callBlk *ssa.BasicBlock, errVal ssa.Value, errIdx int) *ssa.Return {
+	reach := map[*ssa.BasicBlock]bool{}
+	var w []*ssa.BasicBlock
+	w = append(w, from)
+	for len(w) > 0 {
+		b := w[len(w)-1]
+		w = w[:len(w)-1]
+		if reach[b] {
+			continue
+		}
+		reach[b] = true
+		for _, s := range b.Succs {
+			if s == callBlk {
+				continue // the call is executed again: a new error value
+			}
+			w = append(w, s)
+		}
+	}
+	// error values known nil at block b: their nil edge dominates b
+	knownNilAt := func(v ssa.Value, b *ssa.BasicBlock) bool {
+		if v == errVal || v.Referrers() == nil {
+			return false
+		}
+		for _, r := range *v.Referrers() {
+			bo, ok := r.(*ssa.BinOp)
+			if !ok || (bo.Op != token.NEQ && bo.Op != token.EQL) || !(isNilConst(bo.X) || isNilConst(bo.Y)) || bo.Referrers() == nil {
+				continue
+			}
+			for _, rr := range *bo.Referrers() {
+				ifi, ok := rr.(*ssa.If)
+				if !ok {
+					continue
+				}
+				nilEdge := 1
+				if bo.Op == token.EQL {
+					nilEdge = 0
+				}
+				if dominatedByEdge(ifi.Block(), nilEdge, b) {
+					return true
+				}
+			}
+		}
+		return false
+	}
+	var mayNil func(v ssa.Value, at *ssa.BasicBlock, depth int) bool
+	mayNil = func(v ssa.Value, at *ssa.BasicBlock, depth int) bool {
+		if depth > 6 {
+			return false
+		}
+		if isNilConst(v) {
+			return true
+		}
+		if v == errVal {
+			return false
+		}
+		switch x := v.(type) {
+		case *ssa.Phi:
+			for i, e := range x.Edges {
+				pred := x.Block().Preds[i]
+				if !reach[pred] {
+					continue
+				}
+				if mayNil(e, pred, depth+1) {
+					return true
+				}
+			}
+			return false
+		case *ssa.Extract, *ssa.Call:
+			if isErrorType(v.Type()) && (knownNilAt(v, at) || knownNilAt(v, from)) {
+				return true
+			}
+		}
+		return false
+	}
+	for _, b := range f.Blocks {
+		if !reach[b] || len(b.Instrs) == 0 {
+			continue
+		}
+		ret, ok := b.Instrs[len(b.Instrs)-1].(*ssa.Return)
+		if !ok || errIdx >= len(ret.Results) {
+			continue
+		}
+		if mayNil(ret.Results[errIdx], b, 0) {
+			return ret
+		}
+	}
+	return nil
 }
